@@ -1,8 +1,65 @@
 package main
 
 import (
+	"encoding/json"
 	"fmt"
+	"sort"
+
+	"github.com/piprate/json-gold/ld"
 )
+
+// expandedForm: the document in expanded form (json-gold directly): no @context, keywords and absolute IRIs only
+func expandedForm(doc []byte, loader ld.DocumentLoader) (map[string]any, bool) {
+	var obj map[string]interface{}
+	if err := jsonUnmarshal(doc, &obj); err != nil {
+		return nil, false
+	}
+	opts := ld.NewJsonLdOptions("")
+	opts.DocumentLoader = loader
+	ex, err := ld.NewJsonLdProcessor().Expand(obj, opts)
+	if err != nil || len(ex) != 1 {
+		return nil, false
+	}
+	top, ok := ex[0].(map[string]any)
+	return top, ok
+}
+
+// injectUndefExpanded adds properties that are no absolute IRI to node objects of an expanded document (top level, nested
+// nodes - which in expanded form are always members of arrays -, at any depth); returns how many were added
+func injectUndefExpanded(v any, r *Rng, left *int, depth int, forceDeep bool) int {
+	n := 0
+	switch x := v.(type) {
+	case []any:
+		for _, m := range x {
+			n += injectUndefExpanded(m, r, left, depth, forceDeep)
+		}
+	case map[string]any:
+		if _, isValue := x["@value"]; isValue {
+			return 0
+		}
+		for _, k := range sortedKeys(x) {
+			if k != "@type" && k != "@id" {
+				n += injectUndefExpanded(x[k], r, left, depth+1, forceDeep)
+			}
+		}
+		if *left > 0 && (!forceDeep || depth > 0) && r.Chance(40) {
+			*left--
+			n++
+			vals := []any{"some text", []any{map[string]any{"@value": "x"}}, 42.0, []any{map[string]any{"@id": "urn:x:y"}}, true}
+			x[fmt.Sprintf("undefinedProp%d", r.Intn(1000))] = vals[r.Intn(len(vals))]
+		}
+	}
+	return n
+}
+
+func sortedKeys(m map[string]any) []string {
+	var ks []string
+	for k := range m {
+		ks = append(ks, k)
+	}
+	sort.Strings(ks)
+	return ks
+}
 
 // C15: undefined properties (no term, no vocabulary) at top level, nested, inside array members
 var undefNames []string // when set: the names to use for undefined properties (C15 sets it for contexts without the id/type aliases)
@@ -82,6 +139,40 @@ func genC15(out *Out, r *Rng, tier string, n int, shard int) {
 			continue
 		}
 		rootS := runS.Mz.Root().BigInt().String()
+		// the same document written without any context (expanded form), undefined properties added there
+		{
+			for _, forceDeep := range []bool{false, true} {
+				if top, ok := expandedForm(stripped, loader); ok {
+					l2 := 1 + r.Intn(2)
+					nu2 := 0
+					for try := 0; try < 6 && nu2 == 0; try++ {
+						nu2 += injectUndefExpanded(top, r, &l2, 0, forceDeep)
+					}
+					doc, _ := json.Marshal(top)
+					for _, safe := range []bool{true, false} {
+						run := runMerklize(doc, hs, loader, safe, withSafe(safe))
+						var why []string
+						c := Case{Op: "none", In: J{"safe": safe, "undefined": nu2, "doc": string(doc)}, Tags: []string{"context-free", fmt.Sprintf("undefined:%d", nu2), fmt.Sprintf("safe:%v", safe), fmt.Sprintf("deep-only:%v", forceDeep)}, NT: nu2 > 0}
+						if run.Err != nil {
+							c.Impl = errJ(run.Err)
+							if !safe || nu2 == 0 {
+								why = append(why, "context-free document rejected although safe mode is off (or nothing is undefined): "+run.Err.Error())
+							}
+						} else {
+							c.Impl = okJ(run.Mz.Root().BigInt().String())
+							if safe && nu2 > 0 {
+								why = append(why, fmt.Sprintf("safe mode accepted a context-free document with %d undefined propert(y/ies): a field was silently dropped", nu2))
+							}
+							if run.Mz.Root().BigInt().String() != rootS {
+								why = append(why, "root of the context-free rendering differs from the merklization of the document without the undefined properties")
+							}
+						}
+						c.Prop = propOf(why)
+						out.Emit(c)
+					}
+				}
+			}
+		}
 		for _, safe := range []bool{true, false} {
 			for _, explicit := range []bool{false, true} {
 				if !safe && !explicit {
